@@ -188,3 +188,47 @@ func AnyProgram(r *Rng, i int) *Program {
 	}
 	return p
 }
+
+// GlobalCaptureNames lists the captures declared inside the global patterns a body references
+// (they are ordinary variables of every match at run time).
+func GlobalCaptureNames(p *Program, nodes []Node) []string {
+	seen := map[string]bool{}
+	var out []string
+	gl := map[string][]Node{}
+	for _, g := range p.Globals {
+		gl[g.Name] = g.Body
+	}
+	var walk func(n Node)
+	walk = func(n Node) {
+		switch x := n.(type) {
+		case GlobalRef:
+			if !seen[x.Name] {
+				seen[x.Name] = true
+				out = append(out, CaptureNames(gl[x.Name])...)
+				for _, k := range gl[x.Name] {
+					walk(k)
+				}
+			}
+		case Capture:
+			walk(x.Body)
+		case Seq:
+			for _, it := range x.Items {
+				walk(it)
+			}
+		case Or:
+			for _, it := range x.Alts {
+				walk(it)
+			}
+		case Loop:
+			walk(x.Body)
+		case SubDef:
+			for _, it := range x.Body {
+				walk(it)
+			}
+		}
+	}
+	for _, n := range nodes {
+		walk(n)
+	}
+	return out
+}
